@@ -560,6 +560,7 @@ class RoiSubsetStateNd(SubsetState):
 
     def move_to(self, *args):
         self._roi.move_to(*args)
+        clear_all_caches()
 
     def copy(self):
         return type(self)(atts=list(self._atts), roi=self._roi,
@@ -660,6 +661,7 @@ class RoiSubsetState(RoiSubsetStateNd):
     @xatt.setter
     def xatt(self, value):
         self._atts[0] = value
+        clear_all_caches()
 
     @property
     def yatt(self):
@@ -671,6 +673,7 @@ class RoiSubsetState(RoiSubsetStateNd):
     @yatt.setter
     def yatt(self, value):
         self._atts[1] = value
+        clear_all_caches()
 
     def copy(self):
         result = RoiSubsetState()
@@ -1861,6 +1864,7 @@ class RoiSubsetState3d(RoiSubsetStateNd):
     @xatt.setter
     def xatt(self, value):
         self._atts[0] = value
+        clear_all_caches()
 
     @property
     def yatt(self):
@@ -1872,6 +1876,7 @@ class RoiSubsetState3d(RoiSubsetStateNd):
     @yatt.setter
     def yatt(self, value):
         self._atts[1] = value
+        clear_all_caches()
 
     @property
     def zatt(self):
@@ -1883,6 +1888,7 @@ class RoiSubsetState3d(RoiSubsetStateNd):
     @zatt.setter
     def zatt(self, value):
         self._atts[2] = value
+        clear_all_caches()
 
     def copy(self):
         result = RoiSubsetState3d()
